@@ -182,7 +182,7 @@ func main() {
 	rng := lib.NewRng(f.Seed)
 	out := lib.NewOut("C25", f)
 	out.Imports = "From Verif Require Import Model.PluginMsg.\n"
-	out.Rule = "one HandlePacket call per case; handler uniform over the four; message kind register 34% / unregister 12% / brand 8% / BungeeCord 5% / custom 41% with mixed-case ASCII channel names; register bodies are NUL-separated lists over 15 item shapes (valid, no namespace, leading colon, upper case, two colons, empty, FML|HS, non-ASCII), empty bodies, 32766/32767/32768-byte bodies, 1023/1024/1025 channels, existing channel count 0 or 1019..1024 with lists sized to land on 1023/1024/1025 in total; server connection present/has conn/PLAY state/write result/closed/phase, in-flight connection, client phase, registrar membership, subscriber decision (default/allow/deny), config readiness drawn independently; distinct = distinct Coq term; non-trivial = an event fired, a write happened or the message was queued; plus 48 histories (12 per handler): 2..4 messages on registered channels back to back through ONE handler instance, bodies of equal / decreasing / increasing length, the PluginMessageEvent subscriber of each message channel-gated until the next message has been handled, recording Data() at its start and end and the bytes written"
+	out.Rule = "one HandlePacket call per case; handler uniform over the four; message kind register 34% / unregister 12% / brand 8% / BungeeCord 5% / custom 41% with mixed-case ASCII channel names; register bodies are NUL-separated lists over 15 item shapes (valid, no namespace, leading colon, upper case, two colons, empty, FML|HS, non-ASCII), empty bodies, 32766/32767/32768-byte bodies, 1023/1024/1025 channels, existing channel count 0 or 1019..1024 with lists sized to land on 1023/1024/1025 in total; server connection present/has conn/PLAY state/write result/closed/phase, in-flight connection, client phase, registrar membership, subscriber decision (default/allow/deny), config readiness drawn independently; distinct = distinct Coq term; non-trivial = an event fired, a write happened or the message was queued; plus 48 histories (12 per handler): 2..4 messages on registered channels back to back through ONE handler instance, bodies of equal / decreasing / increasing length, the PluginMessageEvent subscriber of each message channel-gated until the next message has been handled, recording Data() at its start and end and the bytes written; plus 60 register histories: 3..6 register/unregister messages of one player through one client play handler (new channels, one more, all known, subset of known, partly new, empty, invalid only, over the 1024 cap, unregister), per step the register events and backend writes"
 	n := f.Count(480)
 	for i := 0; i < n; i++ {
 		r := rng.Fork()
@@ -197,7 +197,163 @@ func main() {
 		term, desc, tags := runHistoryCase(r, i%4)
 		out.Add(term, desc, true, tags...)
 	}
+	// register histories: one player, the known channel set grows and shrinks
+	rn := f.Count(60)
+	for i := 0; i < rn; i++ {
+		r := rng.Fork()
+		term, desc, tags := runRegisterHistory(r)
+		out.Add(term, desc, true, tags...)
+	}
 	out.Finish()
+}
+
+// runRegisterHistory sends 3..6 register (occasionally unregister) messages of ONE player through ONE
+// client play handler: new channels, one more, all known, a subset of the known ones, partly new,
+// empty, only invalid names, over the 1024 cap. Per step: the register events and the backend writes.
+func runRegisterHistory(r *lib.Rng) (string, map[string]any, []string) {
+	ver13 := r.Chance(3, 4)
+	writeOK := r.Chance(5, 6)
+	prot := version.Minecraft_1_12_2.Protocol
+	if ver13 {
+		prot = version.Minecraft_1_20_2.Protocol
+	}
+	mgr := event.New()
+	client := pmsg.NewConn(0, state.Play, prot)
+	backend := pmsg.NewConn(1, state.Play, prot)
+	backend.FailWrite = !writeOK
+	env := proxy.VerifC25NewEnv(client, mgr, message.NewChannelRegistrar(), phase.VanillaClientPhase)
+	sa := env.NewServer("alpha", backend, phase.VanillaBackendPhase)
+	env.SetConnectedServer(sa)
+	h := env.ClientPlayHandler()
+	var mu sync.Mutex
+	var evs []string
+	event.Subscribe(mgr, 0, func(e *proxy.PlayerChannelRegisterEvent) {
+		mu.Lock()
+		evs = append(evs, lib.App("ERegister", lib.ListOf(idsOf(e.Channels()), lib.Str)))
+		mu.Unlock()
+	})
+	event.Subscribe(mgr, 0, func(e *proxy.PlayerChannelUnregisterEvent) {
+		mu.Lock()
+		evs = append(evs, lib.App("EUnregister", lib.ListOf(idsOf(e.Channels()), lib.Str)))
+		mu.Unlock()
+	})
+	fresh := 0
+	newName := func() string {
+		fresh++
+		if ver13 {
+			return fmt.Sprintf("ns%d:c%d", fresh%3, fresh)
+		}
+		return fmt.Sprintf("lc%d", fresh)
+	}
+	var known []string
+	pickKnown := func(n int) []string {
+		if len(known) == 0 {
+			return nil
+		}
+		perm := r.Perm(len(known))
+		if n > len(perm) {
+			n = len(perm)
+		}
+		out := make([]string, n)
+		for i := range out {
+			out[i] = known[perm[i]]
+		}
+		return out
+	}
+	steps := r.Range(3, 6)
+	var msgT, obsT, shapes []string
+	nEvents, nForwarded := 0, 0
+	for i := 0; i < steps; i++ {
+		shape := "new"
+		if i > 0 {
+			shape = r.PickS("one-more", "all-known", "all-known", "subset", "subset", "partly-new", "empty", "invalid-only", "over-cap", "new", "unregister")
+		}
+		channel := r.PickS("minecraft:register", "minecraft:register", "REGISTER")
+		var items []string
+		switch shape {
+		case "new":
+			for j, n := 0, r.Range(1, 3); j < n; j++ {
+				items = append(items, newName())
+			}
+		case "one-more":
+			items = []string{newName()}
+		case "all-known":
+			items = pickKnown(len(known))
+		case "subset":
+			items = pickKnown(r.Range(1, 2))
+		case "partly-new":
+			items = append(pickKnown(r.Range(1, 2)), newName())
+		case "invalid-only":
+			items = []string{"Upper:Case", "bad ns:x"}
+		case "over-cap":
+			items = make([]string, 1025-len(known)+r.Pick(0, 1, 3))
+			for j := range items {
+				items[j] = "a"
+			}
+		case "unregister":
+			channel = "minecraft:unregister"
+			items = pickKnown(r.Range(1, 2))
+		}
+		data := []byte(strings.Join(items, "\x00"))
+		if shape == "empty" {
+			data = nil
+		}
+		// the harness' own view of the known set, only to steer the generator
+		if shape == "unregister" {
+			var rest []string
+			for _, k := range known {
+				drop := false
+				for _, it := range items {
+					drop = drop || it == k
+				}
+				if !drop {
+					rest = append(rest, k)
+				}
+			}
+			known = rest
+		} else if shape != "over-cap" && shape != "invalid-only" {
+			for _, it := range items {
+				dup := false
+				for _, k := range known {
+					dup = dup || k == it
+				}
+				if !dup {
+					known = append(known, it)
+				}
+			}
+		}
+		mu.Lock()
+		evs = nil
+		mu.Unlock()
+		backend.Reset()
+		payload := payloadOf(channel, data)
+		h.HandlePacket(&gproto.PacketContext{Direction: gproto.ServerBound, Protocol: prot, PacketID: 0x18,
+			Packet: &plugin.Message{Channel: channel, Data: append([]byte(nil), data...)}, Payload: payload})
+		mgr.Wait()
+		var wt []string
+		for _, w := range backend.Writes() {
+			wt = append(wt, lib.App("WPkt", lib.N(1), lib.Bool(w.OK), lib.Str(w.Channel), lib.Bytes(w.Data)))
+			if w.OK {
+				nForwarded++
+			}
+		}
+		mu.Lock()
+		nEvents += len(evs)
+		obsT = append(obsT, lib.App("mkOut", lib.List(append([]string(nil), evs...)), lib.List(wt), "false"))
+		mu.Unlock()
+		msgT = append(msgT, lib.App("mkMsg", lib.Str(channel), lib.Bytes(data), lib.Bytes(payload)))
+		shapes = append(shapes, shape)
+	}
+	envT := lib.App("mkEnv", lib.Bool(ver13), lib.N(0), srvTerm(srvSpec{present: true, hasConn: true, play: true, writeOK: writeOK}, 1), "None",
+		"true", "false", "SDefault", "false")
+	term := lib.App("Check.C25.mkReg", envT, lib.List(msgT), lib.List(obsT))
+	desc := map[string]any{"kind": "register-history", "ver13": ver13, "write_ok": writeOK, "steps": shapes, "events": nEvents,
+		"forwarded": nForwarded, "clientside_channels_after": env.ClientsideChannelCount()}
+	tags := []string{"kind=register-history", "handler=HClientPlay"}
+	for _, sh := range shapes {
+		tags = append(tags, "reg-step="+sh)
+	}
+	return term, desc, tags
 }
 
 // runHistoryCase drives k plugin messages on registered channels through one handler instance. The
